@@ -20,6 +20,9 @@ use crate::{
 
 thread_local! {
     static FORCE_FRESH: std::cell::Cell<bool> = std::cell::Cell::new(false);
+    /// Component classes of the current many-pieces class that already have a
+    /// component equated with one of the class's earlier variables.
+    static LINKED: std::cell::RefCell<Vec<usize>> = std::cell::RefCell::new(Vec::new());
 }
 
 pub struct C15Check;
@@ -175,7 +178,7 @@ pub fn generate(r: &mut Rng, contradictory: bool) -> Generated {
             class_of.push(c);
         }
     }
-    let n_original = class_of.len();
+    LINKED.with(|l| l.borrow_mut().clear());
     let mut judgements: Vec<(usize, Ev)> = Vec::new();
     let mut emitted: Vec<Vec<Ev>> = vec![Vec::new(); n_classes];
     let mut pushed_words = 0usize;
@@ -201,15 +204,19 @@ pub fn generate(r: &mut Rng, contradictory: bool) -> Generated {
             // (only in sets without a contradiction: a conflicted class
             // does not unify its components, and evidence that only meets in
             // a later round is the grouping question C16 owns)
-            // (the first fresh variable of a class is always equated, to one
-            // of the class's original variables, so that the elements as a
-            // whole stay tied to the class)
-            if !contradictory && vars_of[k].iter().any(|v| *v >= n_original) && r.chance(1, 2) {
+            // (the first component made for a class in this mode is always
+            // equated with a variable the class already had - all of which
+            // are tied to the class by stated equalities - so that the
+            // components as a whole, which the constructor merges unite, stay
+            // tied to the class)
+            let linked = LINKED.with(|l| l.borrow().contains(&k));
+            if !contradictory && linked && r.chance(1, 2) {
                 let fresh = class_of.len();
                 class_of.push(k);
                 vars_of[k].push(fresh);
                 return fresh;
             }
+            LINKED.with(|l| l.borrow_mut().push(k));
         } else if r.chance(1, 2) {
             return *r.pick(&vars_of[k]);
         }
